@@ -5,11 +5,23 @@
    Same expression type and same meaning (evalR / evalX) as Analytic/IExpr.v. *)
 From Coq Require Import Reals ZArith QArith List Bool.
 From Interval Require Import Specific_bigint Specific_ops Float_full Interval Xreal Basic.
+From Bignums Require Import BigZ.
 From PT Require Import Dec IExpr.
 Import ListNotations.
 
 Module FB := SpecificFloat BigIntRadix2.
 Module IB := FloatIntervalFull FB.
+
+(* exp of an argument surely below -100000 is widened to [0, 2^-100000]: adding such a number to an
+   ordinary one would otherwise align mantissas over billions of bits.  Widening is sound whatever
+   the test says (hull with two more points). *)
+Definition TINY_IV : IB.type :=
+  Float.Ibnd (Specific_ops.Float (BigZ.of_Z 1) (BigZ.of_Z (-100000))) (Specific_ops.Float (BigZ.of_Z 1) (BigZ.of_Z (-100000))).
+Definition widen_tiny (prec : FB.precision) (ia e : IB.type) : IB.type :=
+  match IB.sign_strict (IB.add prec ia (IB.fromZ prec 100000)) with
+  | Xlt => IB.join (IB.join e TINY_IV) IB.zero
+  | _ => e
+  end.
 
 Fixpoint evalB (prec : FB.precision) (ienv : nat -> IB.type) (e : expr) : IB.type :=
   match e with
@@ -24,7 +36,7 @@ Fixpoint evalB (prec : FB.precision) (ienv : nat -> IB.type) (e : expr) : IB.typ
   | EAbs a => IB.abs (evalB prec ienv a)
   | ESqrt a => IB.sqrt prec (evalB prec ienv a)
   | ESqr a => IB.sqr prec (evalB prec ienv a)
-  | EExp a => IB.exp prec (evalB prec ienv a)
+  | EExp a => let ia := evalB prec ienv a in widen_tiny prec ia (IB.exp prec ia)
   | ELn a => IB.ln prec (evalB prec ienv a)
   | ECos a => IB.cos prec (evalB prec ienv a)
   | ESin a => IB.sin prec (evalB prec ienv a)
